@@ -32,6 +32,11 @@ Proof.
   unfold le, ple. destruct (pcmp L a b) as [[]|]; split; intros H; auto; try discriminate; destruct H; discriminate.
 Qed.
 
+Lemma eqb_refl L : LatOK L -> forall a, eqb L a a = true.
+Proof. intros OK a. apply (ok_eqb L OK). reflexivity. Qed.
+Lemma eqb_neq L : LatOK L -> forall a b, a <> b -> eqb L a b = false.
+Proof. intros OK a b N. destruct (eqb L a b) eqn:E; auto. apply (ok_eqb L OK) in E. contradiction. Qed.
+
 Section Derived.
   Variable L : LatImpl.
   Hypothesis OK : LatOK L.
@@ -74,7 +79,7 @@ Section Derived.
   Proof.
     intros Ha Hb. rewrite !le_cases, (ok_pcmp_flip L OK a b Ha Hb).
     destruct (pcmp L a b) as [[]|]; cbn; split; intros H; try discriminate; try reflexivity.
-    all: try (destruct H as [H1 H2]; exfalso; first [apply H1; auto; fail | apply H2; auto; fail]).
+    all: try (destruct H as [X1 X2]; exfalso; first [apply X1; auto; fail | apply X2; auto; fail]).
     split; intros [X|X]; discriminate.
   Qed.
 
